@@ -193,6 +193,13 @@ func grammarVsParser1(run *core.Run, g *g4.Grammar, txt string, origin string) {
 	refOK := g.Accepts("main", tk)
 	realOK, tree, prs, steps := generatedParserTree(txt)
 	run.Eval(2)
+	// the hand-written listener walks whatever tree the generated parser builds, also after error recovery: the
+	// generated context accessors it relies on (children that may be absent) are part of the generated code too
+	if len(txt) < 4000 {
+		transformer.TransformDSLToProto(txt)
+		transformer.TransformModularDSLToProto(txt)
+		run.Eval(2)
+	}
 	if steps < 0 {
 		run.Violation("generated-parser-does-not-terminate-within-its-step-budget", &core.Case{Kind: "text", DSL: txt, Extra: map[string]string{"origin": origin}},
 			fmt.Sprintf("a parse (OpenFGAParser.g4 accepts: %v) within 2e6 + 2e4 x bytes look-ahead / consume calls on the token stream", refOK), fmt.Sprintf("budget exhausted on %d bytes, %d tokens", len(txt), len(tk)))
